@@ -28,7 +28,7 @@ REGISTRY = {
     "C05": {"engine": "sim.world", "level": "exploration",
             "tiers": {"quick": {"runs": 320, "wall": 300}, "thorough": {"runs": 2000, "wall": 1800}}},
     "C06": {"engine": "sim.world", "level": "exploration",
-            "tiers": {"quick": {"runs": 480, "wall": 300}, "thorough": {"runs": 6000, "wall": 1800}}},
+            "tiers": {"quick": {"runs": 480, "wall": 300}, "thorough": {"runs": 3000, "wall": 1800}}},
     "C01": {"engine": "sim.world", "level": "exploration",
             "tiers": {"quick": {"runs": 480, "wall": 300}, "thorough": {"runs": 2400, "wall": 1800}}},
     "C09": {"engine": "sim.bufsim", "level": "exploration",
